@@ -535,6 +535,104 @@ func checkC07(P *Program, r *Result, tier string) {
 	if builders == 0 {
 		r.fatal("no function rebuilding the hash table found")
 	}
+	// ---- CTOR-NONNIL: what the query methods dereference without a test is installed by every constructor ----
+	{
+		type fieldKey struct {
+			t *types.Named
+			f int
+		}
+		needed := map[fieldKey]string{}
+		for _, fn := range fns {
+			if fn.Signature.Recv() == nil || fn.Blocks == nil || len(fn.Params) == 0 {
+				continue
+			}
+			n := baseName(fn)
+			if strings.HasPrefix(n, "Load") || strings.HasPrefix(n, "load") || len(fn.TypeArgs()) > 0 {
+				continue // loaders install what is missing themselves; instances repeat the generic body
+			}
+			for _, b := range fn.Blocks {
+				for _, in := range b.Instrs {
+					ld, ok := in.(*ssa.UnOp)
+					if !ok || ld.Op != token.MUL {
+						continue
+					}
+					fa, ok := ld.X.(*ssa.FieldAddr)
+					if !ok || fa.X != ssa.Value(fn.Params[0]) {
+						continue
+					}
+					if _, isPtr := ld.Type().Underlying().(*types.Pointer); !isPtr {
+						continue
+					}
+					nt := namedOf(fn.Params[0].Type())
+					if nt == nil || ld.Referrers() == nil {
+						continue
+					}
+					// used as the receiver of a method call (or dereferenced) with no nil test in front
+					for _, rf := range *ld.Referrers() {
+						ci, isCall := rf.(ssa.CallInstruction)
+						if !isCall || len(ci.Common().Args) == 0 || ci.Common().Args[0] != ssa.Value(ld) || ci.Common().IsInvoke() {
+							continue
+						}
+						if guardedNonNil(rf, ld) {
+							continue
+						}
+						needed[fieldKey{nt.Origin(), fa.Field}] = shortName(fn)
+					}
+				}
+			}
+		}
+		for k, user := range needed {
+			st, _ := k.t.Underlying().(*types.Struct)
+			if st == nil {
+				continue
+			}
+			fname := st.Field(k.f).Name()
+			// constructors: package-level functions returning *T
+			nctor := 0
+			for _, fn := range repoFuncs(P) {
+				if fn.Signature.Recv() != nil || fn.Blocks == nil || fn.Signature.Results().Len() == 0 || len(fn.TypeArgs()) > 0 {
+					continue
+				}
+				rt := namedOf(fn.Signature.Results().At(0).Type())
+				if rt == nil || rt.Origin() != k.t {
+					continue
+				}
+				// the object returned is allocated here: the field must be stored a never-nil value on it
+				for _, ret := range returnsOf(fn) {
+					al, isAlloc := ret.Results[0].(*ssa.Alloc)
+					if !isAlloc {
+						continue
+					}
+					nctor++
+					ok := false
+					if al.Referrers() != nil {
+						for _, rf := range *al.Referrers() {
+							fa, isFA := rf.(*ssa.FieldAddr)
+							if !isFA || fa.Field != k.f || fa.Referrers() == nil {
+								continue
+							}
+							for _, rf2 := range *fa.Referrers() {
+								if stv, isSt := rf2.(*ssa.Store); isSt && stv.Addr == ssa.Value(fa) && instrDominates(stv, ret) {
+									switch v := stv.Val.(type) {
+									case *ssa.Alloc, *ssa.MakeMap, *ssa.MakeSlice:
+										ok = true
+									case *ssa.Call:
+										if cal := v.Common().StaticCallee(); cal != nil && neverNilResult(cal) {
+											ok = true
+										}
+									}
+								}
+							}
+						}
+					}
+					r.add("CTOR-NONNIL", shortName(fn), "field", "the constructor installs "+fname+", which "+user+" uses without a nil test (a never-loaded map answers absent instead of failing)", P.pos(instrPos(ret)), ok, "")
+				}
+			}
+			if nctor == 0 {
+				r.add("CTOR-NONNIL", k.t.Obj().Name(), "field", "a constructor installs "+fname, "-", false, "no constructor of "+k.t.Obj().Name()+" found")
+			}
+		}
+	}
 	// ---- REBUILD: whoever replaces the items leaves no way out on which the table still indexes the old ones ----
 	var writesTable func(f *ssa.Function, depth int) bool
 	writesTable = func(f *ssa.Function, depth int) bool {
